@@ -162,6 +162,17 @@ Definition touches (d pid : N) (op : sinkop) : bool :=
 (* what was sent for a destination, in the terms of ExportMap::sent_path_ids *)
 Definition was_sent_path (e : emap) (d pid : N) : Prop := In pid (em_sent_path_ids e d).
 
+(* the shape of a change of restale_llgr's stream, as seen by one neighbour: the path the
+   entry (d, pid) is about is LLGR-stale and the change makes the exporter look at it *)
+Definition llgr_change_for (emax : N) (c : change) (e : emap) (pid : N) (v0 : option (list attr)) : Prop :=
+  if emax =? 1
+  then pid = 0 /\ c_best_changed c = true
+       /\ has_entry v0 = em_was_sent e (c_dest c)
+       /\ (forall best rest, c_paths c = best :: rest -> src_llgr (p_src best) = true)
+  else c_any_changed c = true /\ c_replaced c = Some pid
+       /\ (has_entry v0 = true -> was_sent_path e (c_dest c) pid)
+       /\ (forall p, In p (c_paths c) -> p_lpid p = pid -> src_llgr (p_src p) = true).
+
 (* ------------------------------------------------------------ attribute sets the wire decoder produces *)
 (* the codes bgp.rs recognises (Attribute::canonical_flags is defined on them) *)
 Definition recognised (c : N) : bool :=
@@ -170,7 +181,9 @@ Definition recognised (c : N) : bool :=
 (* what the UPDATE decoder guarantees about an attribute vector (packet/src/bgp.rs,
    property C03/C05): unrecognised optional attributes are the only opaque ones,
    an AS_PATH is a well-formed segment list, a COMMUNITY value is a list of
-   4-octet communities *)
+   4-octet communities.  (Since 5e6671b / 36a2dde the decoder also refuses zero-length
+   AS_PATH segments and empty COMMUNITIES / CLUSTER_LIST; the statements do not need
+   that, so it is not assumed.) *)
 Definition decodable (attrs : list attr) : Prop :=
   (forall a, In a attrs -> is_opaque a = true -> recognised (a_code a) = false)
   /\ (forall a, In a attrs -> a_code a = AS_PATH -> exists segs, is_path a segs)
